@@ -28,6 +28,15 @@ def bump(k, n=1):
 
 
 def witness_variants(rows):
+    if 1 < len(rows) <= 4:
+        # small targets: every row order (commutators assume order preservation), plus duplicates
+        import itertools
+
+        out = [list(p) for p in itertools.permutations(rows)]
+        out.append(rows + rows[: max(1, len(rows) // 2)])
+        out.append(rows[:1])
+        out.append([])
+        return out
     out = [rows]
     if len(rows) > 1:
         out.append(list(reversed(rows)))
